@@ -14,15 +14,17 @@ var ErrCrashed = errors.New("simulated process is dead")
 
 // DiskState is the per-run state of the simulated disk.
 type DiskState struct {
-	Mtime    map[string]time.Time
-	TempSeq  int
-	Audit    []AuditRec
-	AuditOn  bool
-	Ops      int
-	FaultFn  func(n *Node, kind, path string) error // error injection hook (harness)
-	OpLog    []string
-	OpLogOn  bool
-	TornOK   bool
+	Mtime   map[string]time.Time
+	TempSeq int
+	Audit   []AuditRec
+	AuditOn bool
+	Ops     int
+	FaultFn func(n *Node, kind, path string) error // error injection hook (harness)
+	OpLog   []string
+	OpLogOn bool
+	TornOK  bool
+	// UsageFn, if set, answers utils/diskspaceutil.Usage (virtual disk utilisation).
+	UsageFn  func() (DiskUsage, error)
 	tempRoot string
 }
 
@@ -154,3 +156,21 @@ func (s *Sim) TempRoot() string {
 }
 
 var tmpSeq int
+
+// DiskUsage is the simulated disk utilisation consulted by the rewritten
+// utils/diskspaceutil.Usage.
+type DiskUsage struct {
+	Util              int
+	Total, Used, Free uint64
+}
+
+// DiskUsageHook returns the harness-provided utilisation (DiskState.UsageFn),
+// if any; ok=false means "use the real file system".
+func DiskUsageHook() (DiskUsage, error, bool) {
+	s := active.Load()
+	if s == nil || s.Disk().UsageFn == nil {
+		return DiskUsage{}, nil, false
+	}
+	u, err := s.Disk().UsageFn()
+	return u, err, true
+}
